@@ -13,9 +13,11 @@
      where <max> = N | P | A | B | =<type tokens joined by '_'>.
      Model-only classification is appended after '|': the unary word gets
      "|<known_weak_fit a><value_ty a><is_nominal a>", every pair word gets
-     "|<known_max a b><ntarget_code a b>" (extracted classifiers of Spec/TyLaws.v).
+     "|<known_max a b><ntarget_code a b><known_order a b>" (extracted classifiers of Spec/TyLaws.v).
    Input line:  "EM <enums> ; <lit 0|1> ; found ; expected"  -> ACCEPT | SILENT | MISMATCH | PANIC
-   Input line:  "EB <enums> ; found ; block_ty"  (expect_block_match), "ER ..." (expect_return)  -> same answers *)
+   Input line:  "EB <enums> ; found ; block_ty"  (expect_block_match), "ER ..." (expect_return)  -> same answers
+   Input line:  "BIN <enums> ; add|eq ; lhs ; rhs" (binary operator / compound assignment),
+                "ASSIGN <enums> ; value ; dest" (plain assignment)  -> same answers *)
 open Conv
 open Ty
 
@@ -132,6 +134,13 @@ let enum_map_of (es : ty list) : TyRel.enum_map =
   (* set_enum_uid inserts; a later registration of the same uid overwrites *)
   List.rev (List.filter_map (fun t -> match t with Enum (u, _) -> Some (u, t) | _ -> None) es)
 
+let show_outcome = function
+  | Util.Ok ExpectMatch.Accept -> "ACCEPT"
+  | Util.Ok ExpectMatch.SilentReject -> "SILENT"
+  | Util.Ok ExpectMatch.Mismatch -> "MISMATCH"
+  | Util.Crash s -> "PANIC" ^ string_of_int (int_of_n s)
+  | Util.OutOfFuel -> "FUEL"
+
 let () =
   iter_lines (fun line ->
     try
@@ -171,7 +180,8 @@ let () =
              Buffer.add_char buf (bc (TyRel.fit b c)));
           Buffer.add_char buf '|';
           Buffer.add_string buf (string_of_int (int_of_n (TyLaws.known_max false a b)));
-          Buffer.add_string buf (string_of_int (int_of_n (TyLaws.ntarget_code (TyLaws.ntarget a b))))) bs;
+          Buffer.add_string buf (string_of_int (int_of_n (TyLaws.ntarget_code (TyLaws.ntarget a b))));
+          Buffer.add_char buf (bc (TyLaws.known_order a b))) bs;
         print_endline (Buffer.contents buf)
       | ("EM" :: es) :: [lit] :: f :: [e] ->
         ignore es;
@@ -195,5 +205,11 @@ let () =
           | Util.Ok ExpectMatch.Mismatch -> "MISMATCH"
           | Util.Crash s -> "PANIC" ^ string_of_int (int_of_n s)
           | Util.OutOfFuel -> "FUEL")
+      | ("BIN" :: es) :: [op] :: a :: [b] ->
+        let m = enum_map_of (parse_many es) in
+        let op = if op = "add" then ExpectMatch.OpAdd else ExpectMatch.OpEq in
+        print_endline (show_outcome (ExpectMatch.binary_outcome m op (one a) (one b)))
+      | ("ASSIGN" :: _) :: value :: [dest] ->
+        print_endline (show_outcome (ExpectMatch.assign_outcome (one value) (one dest)))
       | _ -> print_endline "!BADLINE"
     with Parse s -> print_endline ("!PARSE " ^ s))
